@@ -54,7 +54,6 @@ func IDs() []string {
 
 // NotApplicable lists the properties that are not claimed, with the reason.
 var NotApplicable = map[string]string{
-	"C10": "Equality between reported counters/sizes and the repository state before/after prune is arithmetic over runtime index contents; beyond C09's orderings no clause of it is visible in the shape of the code, so static analysis cannot decide it.",
 }
 
 var commonAssumptions = []string{
